@@ -21,7 +21,7 @@ RULE = (
 )
 ASSUMPTIONS = [
     "the static convert_to_sg_motl is given the class' own (index-reset) table, as the class paths do",
-    "subtomogram numbers are positive integers (parity defines the half-set)",
+    "subtomogram numbers are integers of either sign (parity defines the half-set: -3 is odd)",
 ]
 BUDGET = {"quick": {"examples": 1100, "seconds": 85}, "thorough": {"examples": 5000, "seconds": 540}}
 
@@ -37,7 +37,8 @@ C = oracle.MOTL_COLUMNS
 
 def strategy(tier):
     return st.fixed_dictionaries({
-        "table": gen.table(1, 12, bulk_max=300, fields={"score": st.one_of(gen.finite(-1, 1), gen.finite(-1e4, 1e4), st.just(0.123456789))}),
+        "table": gen.table(1, 12, bulk_max=300, fields={"score": st.one_of(gen.finite(-1, 1), gen.finite(-1e4, 1e4), st.just(0.123456789))},
+                           id_strategy=st.one_of(st.integers(1, 5000), st.integers(1, 5000), st.integers(-60, 60), st.integers(2**24, 2**24 + 50))),
         "reset_index": st.booleans(),
         "update_coord": st.booleans(),
         "export": st.sampled_from(["memory", "write_out", "emmotl2stopgap_df", "emmotl2stopgap_em"]),
@@ -229,6 +230,16 @@ def run(case):
                 exp2 = expect_after_update(vals, "reexport")
                 check_sg_table(out, sg2, exp2, reset, True, "reexport")
                 a = keep_a
+    # a path that is written twice must be read as its current content (no memory of the first load)
+    if im == "class_path" and not out.violations and n >= 2:
+        rev = a[::-1].copy()
+        dfr = gen.table_df({"cols": C, "rows": rev.tolist(), "bulk": None, "index": "default"})
+        ok, _ = call(out, "write_out", lambda: cryomotl.StopgapMotl(dfr).write_out(star_path, reset_index=False))
+        if ok:
+            ok, b2 = call(out, "StopgapMotl(path)", lambda: cryomotl.StopgapMotl(star_path))
+            if ok and out.check(len(b2.df) == n, "rewrite:row_count", f"{len(b2.df)}"):
+                got_ids = b2.df["subtomo_id"].to_numpy(dtype=float)
+                out.check(close(got_ids, rev[:, C.index("subtomo_id")], True), "rewrite:second_load_of_rewritten_path_returns_old_content", lambda: f"{got_ids[:4]} vs {rev[:4, C.index('subtomo_id')]}")
     # independent STOPGAP inputs
     ind = case["independent"]
     if ind != "none":
